@@ -115,6 +115,8 @@ def run_one(sid, props):
         for p in props:
             if out["fired"].get(own) and p != own and not os.environ.get("SEED_ALL"):
                 break
+            if p != own and os.environ.get("SEED_OWN_ONLY"):      # first verdict of the own check only
+                break
             try:
                 r = subprocess.run([PY, "-m", "sdpverif", "check", p, "--tier", "quick"], cwd=VERIF, env=env, capture_output=True, text=True, timeout=1500)
             except subprocess.TimeoutExpired:
